@@ -16,6 +16,7 @@ from .. import fam_calib as fc
 from .. import fam_mat as fmat
 from .. import fam_pipeline as fp
 from .. import fam_recipe as fr
+from .. import gen_models as gm
 from .. import pipeline as pl
 
 from ai_edge_quantizer import quantizer
@@ -87,10 +88,26 @@ def history_case(ctx, drv, rng, i, n_sub):
         ctx.fail(msg, {**replay, "history": log}, key)
     recipes = [pl.gen_recipe(rng, mb) for _ in range(3)] + [None]
     last = None
-    for step in range(rng.randint(3, 8)):
-        k = rng.choice([0, 0, 1])
+    # scripted prefixes that need a specific order to manifest, followed by random steps
+    names = [n for sc in pl.scopes_of(mb) for n in sc.split(";") if n]
+    script = []
+    if i % 3 == 0:
+        script = ["load", "calibrate", "quantize", "calibrate", "quantize"]          # same recipe, new statistics
+    elif i % 3 == 1:
+        script = ["load", "calibrate", "quantize", "exclude", "quantize"]            # '*' rule under a new regex after a lookup
+    steps = script + [None] * rng.randint(2, 6)
+    for forced in steps:
+        k = 0 if forced else rng.choice([0, 0, 1])
         q = qs[k]
-        act = rng.choice(["recipe", "load", "calibrate", "quantize", "quantize", "validate"])
+        act = forced or rng.choice(["recipe", "load", "calibrate", "quantize", "quantize", "validate"])
+        if act == "exclude":
+            import re as _re
+            try:
+                q.update_quantization_recipe(_re.escape(rng.choice(names)), "*", None, "no_quantize")
+            except ValueError:
+                pass
+            log.append((k, "exclude"))
+            continue
         log.append((k, act))
         try:
             if act == "recipe":
@@ -104,7 +121,8 @@ def history_case(ctx, drv, rng, i, n_sub):
             elif act == "calibrate":
                 if not q.need_calibration:
                     continue
-                for sig, samples in case.data.items():
+                fresh_data = gm.random_inputs(mb, rng, n=rng.randint(1, 2))   # new data every session
+                for sig, samples in fresh_data.items():
                     d0, p0 = snap(samples), (None if shared_cr is None else snap(shared_cr))
                     prev = shared_cr
                     new = q.calibrate(samples, signature_key=sig, previous_calibration_result=prev)
